@@ -51,7 +51,7 @@ theorem tryFill_cursor (X : Bytes) (n len : Nat) (e : Bool) (hn : n ≤ X.length
     simp only [h, h2, if_true, if_false, e1]
 
 /-- `try_fill!` in terms of buffer and data. -/
-theorem tryFill_filled {buffer data bf d : Bytes} {len : Nat} {e : Bool}
+theorem tryFill_filled_ps {buffer data bf d : Bytes} {len : Nat} {e : Bool}
     (h : tryFill buffer data len e = .filled bf d) :
     ∃ k, k ≤ data.length ∧ bf = buffer ++ data.take k ∧ d = data.drop k ∧ len ≤ bf.length ∧
       (buffer.length < len → bf.length = len) := by
@@ -67,7 +67,7 @@ theorem tryFill_filled {buffer data bf d : Bytes} {len : Nat} {e : Bool}
     cases h
     exact ⟨0, by omega, by simp, by simp, by omega, by omega⟩
 
-theorem tryFill_ret {buffer data bf d : Bytes} {len : Nat} {e : Bool}
+theorem tryFill_ret_ps {buffer data bf d : Bytes} {len : Nat} {e : Bool}
     (h : tryFill buffer data len e = .ret bf d) :
     buffer.length + data.length < len ∧
       (if e then bf = buffer ++ data ∧ d = [] else bf = buffer ∧ d = data) := by
@@ -109,7 +109,7 @@ def headNeed (X : Bytes) : Nat :=
       | none => 0
       | some bx => if X.length < head2 b0 bx then head1 b0 else head2 b0 bx
 
-theorem hdr_short1 {X : Bytes} {b0 : UInt8} (h0 : X[0]? = some b0) (hl : X.length < head1 b0) :
+theorem hdr_short1_ps {X : Bytes} {b0 : UInt8} (h0 : X[0]? = some b0) (hl : X.length < head1 b0) :
     NV.next X = none := by
   rcases X with _ | ⟨a0, t⟩
   · simp at h0
@@ -470,7 +470,7 @@ theorem parseBuffered_cursor (i : Inner) (X : Bytes) (n : Nat) (e : Bool) (hn0 :
       simp only [pbSpec, hnx, headNeed_short2 h0 hx c1 (by omega), hn1]
       cases e <;> rfl
   · rw [if_neg c1]
-    have hnx := hdr_short1 h0 (by omega)
+    have hnx := hdr_short1_ps h0 (by omega)
     simp only [pbSpec, hnx, headNeed_short1 h0 (by omega), Nat.max_zero]
     cases e <;> rfl
 
@@ -915,7 +915,7 @@ theorem parseStream_no_panic (env0 : List (Bytes × Bytes)) (C : Bytes) (i : Inn
   · split <;> (intro h; cases h)
 
 /-- Hence every call from a good state succeeds. -/
-theorem parseStream_ok (env0 : List (Bytes × Bytes)) (C : Bytes) (i : Inner) (data : Bytes)
+theorem parseStream_ok_inv (env0 : List (Bytes × Bytes)) (C : Bytes) (i : Inner) (data : Bytes)
     (e : Bool) (hinv : ParamsInv env0 C i) : ∃ i' k, parseStream i data e = .ok i' k := by
   cases h : parseStream i data e with
   | ok i' k => exact ⟨i', k, rfl⟩
@@ -1069,7 +1069,7 @@ theorem params_payload_inv (env0 : List (Bytes × Bytes)) (cs : List Bytes) :
   | nil => intro C i h; exact ⟨i, rfl, by simpa using h, SameReqHead.refl i⟩
   | cons c cs ih =>
     intro C i h
-    obtain ⟨i1, k, hk⟩ := parseStream_ok env0 C i c true h
+    obtain ⟨i1, k, hk⟩ := parseStream_ok_inv env0 C i c true h
     obtain ⟨_, hinv1, hs1, hfull, _⟩ := parseStream_spec env0 C i i1 c true k h hk
     rw [hfull rfl, List.take_length] at hinv1
     obtain ⟨i', hf, hinv', hs'⟩ := ih (C ++ c) i1 hinv1
